@@ -325,6 +325,9 @@ def run(fx, chk, tier):
     pushes = [(b, t) for b, t in wbody.calls() if (t["callee"].get("path") or "").endswith("Vec::<T, A>::push") and wbody.op_str(t["args"][0]).endswith("moov.traks")]
     ok = len(pushes) == 1 and flush_calls and wbody.in_loop(pushes[0][0]) and wbody.dominates(flush_calls[0], pushes[0][0])
     chk.require(ok, "R4", "write_end", "traks pushed in track-vector order", "write_end does not emit the trak boxes in the order of the track vector", site_of(we))
+    # ---------------- R6 / R7
+    import c01_tables
+    c01_tables.run(fx, chk, cg, tw)
     return chk.finish(
         "other",
         "Structural necessary conditions of mux->demux fidelity (exactly-once bookkeeping, final flush, traceless rejection, id pairing, table pairing) checked on the MIR of the muxer with dominance and loop membership. "
